@@ -230,6 +230,9 @@ def compare_with_model(run, suite, case, o, m, names):
     if len(ie) != len(me):
         run.corr_fail(suite, case, [e[:3] for e in me], [(pos.get(a), pos.get(b), l) for a, b, l, _, _ in ie], "edge lists differ")
         return False
+    # NetworkX iterates edges by source node; the model lists them by target: compare as sorted lists
+    ie = sorted(ie, key=lambda a: (pos.get(a[0], -1), pos.get(a[1], -1), a[2] if isinstance(a[2], int) else -1))
+    me = sorted(me, key=lambda b: (b[0], b[1], b[2]))
     for a, b in zip(ie, me):
         if not (pos.get(a[0]) == b[0] and pos.get(a[1]) == b[1] and a[2] == b[2] and same_val(a[3], b[3]) and p_same(a[4], b[4])):
             run.corr_fail(suite, case, b, (pos.get(a[0]), pos.get(a[1]), a[2], a[3], a[4]), "edge differs")
